@@ -75,6 +75,24 @@ add("lists",
     + strs("a", "b", "@innerq") + [("ml", "m")] + tags(":is"),
     quick=5, thorough=8)
 
+# the same typed vocabularies again, but starting *inside* a nested context (the prelude is not counted in MaxLen):
+# behaviour that depends on the enclosing constructs shows up without needing a dozen enumerated tokens
+T = lambda *toks: [tuple(t) for t in toks]
+add("tests_nested", SLICES["tests"]["vocab"][:-len(PUNCT)],
+    prelude=req("relational", "regex") + T(("id", "if"), ("id", "allof"), ("lp", ""), ("id", "true"), ("comma", ""), ("id", "not")),
+    quick=5, thorough=6)
+add("flags_nested", SLICES["flags"]["vocab"][:-len(PUNCT)],
+    prelude=req("imap4flags", "relational") + T(("id", "if"), ("id", "anyof"), ("lp", ""), ("id", "not"), ("id", "not")),
+    quick=5, thorough=6)
+add("actions_nested", SLICES["actions"]["vocab"][:-len(PUNCT)],
+    prelude=req("fileinto", "reject", "copy", "mailbox", "imap4flags")
+    + T(("id", "if"), ("id", "true"), ("lc", ""), ("id", "if"), ("id", "false"), ("lc", ""), ("rc", ""), ("id", "else"), ("lc", "")),
+    quick=4, thorough=6)
+add("dateetc_nested", SLICES["dateetc"]["vocab"][:-len(PUNCT)],
+    prelude=req("body", "date", "variables", "relational")
+    + T(("id", "if"), ("id", "true"), ("lc", ""), ("rc", ""), ("id", "elsif"), ("id", "anyof"), ("lp", "")),
+    quick=5, thorough=6)
+
 ALL_EXTS = ["fileinto", "reject", "envelope", "body", "vacation", "vacation-seconds", "variables",
             "date", "imap4flags", "copy", "mailbox", "relational", "regex"]
 SIM = {"name": "sim", "prelude": req(*ALL_EXTS),
